@@ -22,6 +22,8 @@ mod fam_nfs;
 mod fam_stream;
 mod scale_common;
 mod scale_iovec;
+mod scale_codec;
+mod scale_stream;
 mod util;
 
 use std::io::Write;
@@ -46,6 +48,9 @@ fn families() -> Vec<Box<dyn Family>> {
     v.push(Box::new(fam_stream::ChunkerFamily));
     v.push(Box::new(fam_stream::ReaderFamily));
     v.push(Box::new(scale_iovec::ScaleIovecFamily));
+    v.push(Box::new(scale_codec::ScaleCodecFamily));
+    v.push(Box::new(scale_stream::ScaleChunkerFamily));
+    v.push(Box::new(scale_stream::ScaleReaderFamily));
     v
 }
 
